@@ -93,7 +93,56 @@ def classify(src: str) -> str:
     raise Unsupported("_pickle_save has a shape outside the supported subset:\n" + ast.unparse(f))
 
 
-def render(mode: str) -> str:
+def name_scheme(tree: ast.Module) -> str:
+    """shape of the default `name_fn` (`_pickle_name`, and that `Cache.name_fn` defaults to it)"""
+    fns = {n.name: n for n in tree.body if isinstance(n, ast.FunctionDef)}
+    cache = next((n for n in tree.body if isinstance(n, ast.ClassDef) and n.name == "Cache"), None)
+    ok = any(isinstance(st, ast.AnnAssign) and isinstance(st.target, ast.Name) and st.target.id == "name_fn"
+             and isinstance(st.value, ast.Name) and st.value.id == "_pickle_name" for st in (cache.body if cache else []))
+    if not ok or "_pickle_name" not in fns:
+        raise Unsupported("Cache.name_fn does not default to _pickle_name")
+    f = fns["_pickle_name"]
+    body = [s for s in f.body if not (isinstance(s, ast.Expr) and isinstance(s.value, ast.Constant))]
+    if len(f.args.args) != 1 or len(body) != 1 or not isinstance(body[0], ast.Return):
+        raise Unsupported("_pickle_name shape")
+    k = f.args.args[0].arg
+    src = ast.unparse(body[0].value)
+    v = body[0].value
+    if (isinstance(v, ast.JoinedStr) and len(v.values) == 2 and isinstance(v.values[0], ast.FormattedValue)
+            and v.values[0].conversion == -1 and v.values[0].format_spec is None
+            and isinstance(v.values[1], ast.Constant) and v.values[1].value == ".p"):
+        inner = v.values[0].value
+        if isinstance(inner, ast.Name) and inner.id == k:
+            return "plainStr"
+        if (isinstance(inner, ast.Call) and ast.unparse(inner.func) == "quote" and len(inner.args) == 1
+                and ast.unparse(inner.args[0]) == f"repr({k})" and len(inner.keywords) == 1
+                and inner.keywords[0].arg == "safe" and isinstance(inner.keywords[0].value, ast.Constant)
+                and inner.keywords[0].value.value == ""):
+            imports = {a.name for n in tree.body if isinstance(n, ast.ImportFrom) and n.module == "urllib.parse" for a in n.names}
+            if "quote" not in imports:
+                raise Unsupported("quote is not urllib.parse.quote")
+            return "quotedRepr"
+    raise Unsupported("_pickle_name returns " + src)
+
+
+def refuses_duplicates(tree: ast.Module) -> bool:
+    """`parallelise` raises ValueError inside `if cache is not None:` when `len(set(keys)) != len(keys)`"""
+    fn = next((n for n in tree.body if isinstance(n, ast.FunctionDef) and n.name == "parallelise"), None)
+    if fn is None:
+        raise Unsupported("parallelise not found")
+    for st in fn.body:
+        if isinstance(st, ast.If) and ast.unparse(st.test) == "cache is not None":
+            src = [ast.unparse(x) for x in st.body]
+            for i, x in enumerate(st.body):
+                if (isinstance(x, ast.If) and ast.unparse(x.test) == "len(set(keys)) != len(keys)"
+                        and any(isinstance(y, ast.Raise) for y in x.body)
+                        and "keys = [k for k, _ in inputs]" in src[:i]):
+                    return True
+            return False
+    raise Unsupported("parallelise has no `if cache is not None:` block")
+
+
+def render(mode: str, scheme: str = "plainStr", refuses: bool = False) -> str:
     doc = {
         "direct": "open('wb') on the final path, pickle.dump",
         "atomic": "open('wb') on a temporary sibling, pickle.dump, rename onto the final path",
@@ -104,6 +153,10 @@ def render(mode: str) -> str:
         "namespace Mxl.C19.Gen\n"
         f"/-- shape of `_pickle_save`: {doc} -/\n"
         f"def saveMode : Mxl.C19.SaveMode := .{mode}\n"
+        "/-- shape of `_pickle_name` -/\n"
+        f"def nameScheme : Mxl.C19.NameScheme := .{scheme}\n"
+        "/-- `parallelise` raises when a cache is used with repeated keys -/\n"
+        f"def refusesDuplicateKeys : Bool := {'true' if refuses else 'false'}\n"
         "end Mxl.C19.Gen\n"
     )
 
@@ -119,16 +172,21 @@ def write_if_changed(path: Path, text: str) -> bool:
 def generate(repo: Path, outdir: Path) -> None:
     out = Path(outdir) / "C19Save.lean"
     try:
-        mode = classify((Path(repo) / "src" / "mxlpy" / "parallel.py").read_text())
+        src = (Path(repo) / "src" / "mxlpy" / "parallel.py").read_text()
+        mode = classify(src)
+        tree = ast.parse(src)
+        scheme, refuses = name_scheme(tree), refuses_duplicates(tree)
     except Exception as e:
         # never leave a stale table behind: the dependent theorems must stop elaborating
         write_if_changed(out, "-- GENERATED by translate/c19.py: UNSUPPORTED source shape\n"
                               "import MxlVerif.Model.C19\nnamespace Mxl.C19.Gen\n"
                               f"/- {str(e)[:400].replace('-/', '- /')} -/\n"
                               "def saveMode : Mxl.C19.SaveMode := .direct\n"
+                              "def nameScheme : Mxl.C19.NameScheme := .plainStr\n"
+                              "def refusesDuplicateKeys : Bool := false\n"
                               "def unsupported : Unit := ()\nend Mxl.C19.Gen\n")
         raise
-    write_if_changed(out, render(mode))
+    write_if_changed(out, render(mode, scheme, refuses))
 
 
 if __name__ == "__main__":
